@@ -42,6 +42,9 @@ def print_value(sort, v):
     raise ValueError("cannot print a value of sort %r" % (sort,))
 
 
+UNKNOWN_SYMBOL = "kk"     # check-sat answers unknown while a symbol of this name is declared
+
+
 class StrictSolver(object):
     def __init__(self, dom=None):
         self.it = Interp()
@@ -89,6 +92,12 @@ class StrictSolver(object):
         if c == "check-sat":
             if len(cmd) != 1:
                 raise SmtError("bad check-sat")
+            if UNKNOWN_SYMBOL in self.it.all_funs():
+                # a solver may give up: with the designated symbol in scope every check-sat answers unknown
+                self.model = None
+                self.last_result = None
+                self.checks += 1
+                return "unknown"
             return "sat" if self.check() else "unsat"
         if c == "get-value":
             if len(cmd) != 2 or not isinstance(cmd[1], list) or not cmd[1]:
